@@ -340,6 +340,10 @@ func cmdCheck(args []string) int {
 			}
 			nObl++
 			nDis++
+			if _, listed := undec[o.Name]; listed {
+				// listed as undecided but proved in this run: the entry is stale
+				fmt.Printf("NOTE: property=%s obligation listed in UNDECIDED.txt is discharged: %s\n", id, o.Name)
+			}
 			byBackend[s.Solver]++
 			if len(samples) < 6 {
 				samples = append(samples, map[string]any{"obligation": o.Name, "clause": o.Detail, "solver": s.Solver, "time_s": s.Time, "query_sha256_prefix": s.QuerySHA})
